@@ -70,6 +70,48 @@ func deferredCalls(body ast.Node, name string) []string {
 	return out
 }
 
+// compositeElems returns the element texts of the first composite literal in body whose type text
+// contains typ.
+func compositeElems(body ast.Node, typ string) []string {
+	var out []string
+	if body == nil {
+		return out
+	}
+	done := false
+	ast.Inspect(body, func(n ast.Node) bool {
+		if done {
+			return false
+		}
+		if cl, ok := n.(*ast.CompositeLit); ok && cl.Type != nil && containsStr(text(cl.Type), typ) {
+			for _, e := range cl.Elts {
+				out = append(out, text(e))
+			}
+			done = true
+			return false
+		}
+		return true
+	})
+	return out
+}
+
+// sortSliceLess returns the returned expression of the comparator literal given to sort.Slice in body.
+func sortSliceLess(body ast.Node) string {
+	res := "unknown"
+	for _, c := range calls(body, "Slice") {
+		if len(c.Args) != 2 {
+			continue
+		}
+		fl, ok := c.Args[1].(*ast.FuncLit)
+		if !ok || len(fl.Body.List) != 1 {
+			continue
+		}
+		if r, ok := fl.Body.List[0].(*ast.ReturnStmt); ok && len(r.Results) == 1 {
+			return text(r.Results[0])
+		}
+	}
+	return res
+}
+
 func prefixed(p string, xs []string) []string {
 	out := make([]string, len(xs))
 	for i, x := range xs {
@@ -92,6 +134,18 @@ func factsProxy() {
 		firstIfCond(body(fn(pr, "", "matchesExternalLabels")), "extValue"))
 	emitStr("pruneExtRejectCond", "pkg/store/prometheus.go matchesExternalLabels: request rejected",
 		firstIfCond(body(fn(pr, "", "matchesExternalLabels")), "tm.Matches"))
+
+	// ---- C03: the deduplicator's field order and sort, the batching and limit conditions
+	pmg := parse("pkg/store/proxy_merge.go")
+	chainFn := body(fn(pmg, "responseDeduplicator", "chainSeriesAndRemIdenticalChunks"))
+	emitList("chainFieldOrder", "pkg/store/proxy_merge.go chainSeriesAndRemIdenticalChunks: the fields of a chunk, in the order they are looked at",
+		compositeElems(chainFn, "storepb.Chunk"))
+	emitStr("chainSortLess", "pkg/store/proxy_merge.go chainSeriesAndRemIdenticalChunks: the comparator of sort.Slice", sortSliceLess(chainFn))
+	bt := parse("pkg/store/batchable.go")
+	emitStr("batchFlushCond", "pkg/store/batchable.go batchableServer.Send: when a batch is sent",
+		firstIfCond(body(fn(bt, "batchableServer", "Send")), "batchSize"))
+	emitStr("seriesLimitCond", "pkg/store/proxy.go ProxyStore.Series: the limit test of the response loop",
+		firstIfCond(body(fn(px, "ProxyStore", "Series")), "r.Limit"))
 
 	// ---- C17: who puts the shard buffer back, how often, and how the byte pool tests its budget
 	si := parse("pkg/store/storepb/shard_info.go")
